@@ -37,7 +37,7 @@ THEOREMS = [
     "Measured.C05.convert_linear", "Measured.C05.convert_zero", "Measured.C05.convert_sign",
     "Measured.C05.convert_proportional", "Measured.C05.convert_self", "Measured.C05.round_trip",
     "Measured.C05.route_independent", "Measured.Obligations.family_round_trip", "Measured.Obligations.planShapeOk_sound",
-    "Measured.findPath_sound", "Measured.equate_graphOK", "Measured.reach_graphOK",
+    "Measured.findPath_sound", "Measured.findPath_total", "Measured.equate_graphOK", "Measured.reach_graphOK",
     "Measured.C05.direct_conversion_exact", "Measured.C05.direct_round_trip", "Measured.C05.direct_route_independent",
     "Measured.Obligations.Direct.c0_graphOK", "Measured.Obligations.Direct.direct_fragment_inhabited",
 ]
